@@ -249,11 +249,13 @@ def h_settings(client):
         else:
             note('applied')
             check(s_not(over), 'ack-overflow-accepted', (g1, g3, old, new))
+            # any WINDOW_UPDATE emitted from the ACK path is credited to the ghost
+            ok, g = _credit(out.frames(), (gc, g1 + d, g3 + d))
+            check(ok, 'settings-ack-unexpected-frame', None)
             cur = _cur(me)
-            check(s_and(cur[0] == gc, cur[1] == g1 + d, cur[2] == g3 + d),
+            check(s_and(cur[0] == g[0], cur[1] == g[1], cur[2] == g[2]),
                   'window-after-ack-of-settings', cur)
-            check(out.nbytes() == 0, 'settings-ack-emits', None)
-            check(me.remote_flow_control_window(1) == s_min(gc, g1 + d),
+            check(me.remote_flow_control_window(1) == s_min(g[0], g[1]),
                   'remote-window-after-settings', None)
     return h
 
